@@ -145,7 +145,40 @@ def random_cfg(rnd, faults):
                 b["fill"] = on(rnd.choice([0, 0xAA, 0xFF]))
         else:
             b["size"] = on(max(0, n - rnd.randrange(1, 3)))
+        if faults and rnd.random() < 0.06:
+            b["size"] = on(rnd.choice([-1, 0, 65536, 65537, -70000, 1 << 20]))   # on both sides of the accepted range 0..65536
+        if faults and rnd.random() < 0.02:
+            b["fill"] = on(rnd.choice([-1, 256, 0x1aa]))                           # not a byte: outside the property (recorded only)
     return {"banks": banks, "segs": segs, "fmt": fmt, "out": out, "names": NAMES}
+
+
+def edge_cfgs(rnd):
+    """Hand-picked corners of the `size` rule (accepted range 0..65536) and of the address space: a bank of exactly 65536 bytes."""
+    def bank(size, fill, **kw):
+        return dict({"name": "b1", "size": size, "fill": fill, "fname": OFFS, "create": False}, **kw)
+
+    def seg(i, start, n, write=True):
+        return {"name": "s%d" % i, "start": lit(start), "pc": OFF, "write": write, "bank": ons("b1"), "origin": "user", "bytes": seg_bytes(i, n)}
+    f = rnd.choice([0x55, 0xAA, 0xFF])
+    base = rnd.randrange(0x200, 0xF000)
+    full = [seg(1, 0, 2), seg(2, 65534, 2)]            # spans $0000-$FFFF: 65536 bytes
+    almost = [seg(1, 1, 2), seg(2, 65533, 2)]          # 65534 bytes
+    small = [seg(1, base, 3), seg(2, base + 5, 2)]
+    rows = [(on(65536), OFF, full), (on(65536), on(f), almost), (on(65536), OFF, almost), (on(65535), on(f), full), (on(65537), on(f), full),
+            (on(65537), OFF, small), (on(65537), on(f), small), (on(65536), on(f), small),
+            (on(-1), OFF, small), (on(-1), on(f), small), (on(-1), on(f), [seg(1, base, 2, write=False), seg(2, base + 4, 1, write=False)]),
+            (on(0), OFF, small), (on(0), on(f), [seg(1, base, 2, write=False), seg(2, base + 4, 1, write=False)]),
+            (on(0), OFF, [seg(1, base, 2, write=False), seg(2, base + 4, 1, write=False)]),
+            (OFF, on(256), small), (OFF, on(-1), small), (on(8), on(0x1aa), small)]
+    out = []
+    for size, fill, segs in rows:
+        for fmt in ("unset", "bin"):
+            out.append({"banks": [bank(size, fill)], "segs": [dict(x) for x in segs], "fmt": fmt, "out": OFFS, "names": NAMES})
+    # the same rule on a bank that creates its segment, and on the second of two banks
+    out.append({"banks": [bank(on(65537), on(f), create=True)], "segs": [dict(seg(1, base, 2), name="b1", origin="bank")], "fmt": "unset", "out": OFFS, "names": NAMES})
+    out.append({"banks": [bank(OFF, OFF), dict(bank(on(-1), OFF), name="b2")], "segs": [seg(1, base, 2), dict(seg(2, base + 3, 2), bank=ons("b2"))],
+                "fmt": "bin", "out": OFFS, "names": NAMES})
+    return out
 
 
 # ------------------------------------------------------------------ rendering
@@ -158,9 +191,9 @@ def _bank_def(b, rnd):
     parts = ['name = "%s"' % b["name"]]
     opt = []
     if b["size"]["on"]:
-        opt.append("size = %s" % (_num(b["size"]["v"], rnd) if rnd.random() < 0.3 else str(b["size"]["v"])))
+        opt.append("size = %s" % (_num(b["size"]["v"], rnd) if (rnd.random() < 0.3 and b["size"]["v"] >= 0) else str(b["size"]["v"])))
     if b["fill"]["on"]:
-        opt.append("fill = $%02x" % b["fill"]["v"])
+        opt.append(("fill = $%02x" % b["fill"]["v"]) if 0 <= b["fill"]["v"] < 256 else "fill = %d" % b["fill"]["v"])
     if b["fname"]["on"]:
         opt.append('filename = "%s"' % b["fname"]["s"])
     if b["create"]:
@@ -255,7 +288,8 @@ def render(cfg, rnd):
 # ------------------------------------------------------------------ observations
 
 ERR_CLASSES = [("range", r"is out of range|must be between \$0000 and \$FFFF"), ("unknownbank", r"but this bank does not exist"), ("nobank", r"is not assigned to any bank"),
-               ("oversize", r"exceeds maximum size"), ("short", r"No fill value was specified"), ("prgmulti", r"must contain a single bank only")]
+               ("oversize", r"exceeds maximum size"), ("sizerange", r"'size' must be between 0 and 65536"),
+               ("undefseg", r'unknown identifier: "'), ("short", r"No fill value was specified"), ("prgmulti", r"must contain a single bank only")]
 
 
 def classify(msgs):
